@@ -174,6 +174,12 @@ func (c17) Run(c core.Case, w *core.Worker) core.Result {
 			}
 		}
 		res.Add("files_checked", int64(len(fsize)))
+		// the caller owns the struct Stat returned: what it writes there must not come back
+		st.KeyNum, st.ReclaimableSize = -12345, -1
+		if res.Counters["stat_comparisons"]%2 == 0 {
+			st.DiskSize, st.DataFileNum = -2, -3
+		}
+		res.Add("stat_results_overwritten_by_the_caller", 1)
 	}
 	s.AfterOp = func(i int, op core.Op) {
 		when := "after " + op.Kind
